@@ -26,7 +26,9 @@ from .harness import (
     Bundle,
     CONFIGS,
     MODE_OF,
+    EndsOnlyRecorder,
     Recorder,
+    StartsOnlyRecorder,
     make_middleware,
     run_config,
     run_overlapped,
@@ -573,7 +575,8 @@ def _activity(st, bundle, res):
 
 def _execute(config, bundle, spec, req, sched, policy):
     mode = MODE_OF[config]
-    tags = ["R%d" % i for i in range(req.ninstr)]
+    tags = ["R0"] + ["%s%d" % ("RSE"[(req.wseed >> (2 * i)) % 3], i)
+                     for i in range(1, req.ninstr)]
     mw_tags = []
     mws = []
     for i, is_async in enumerate(req.mws):
@@ -583,7 +586,13 @@ def _execute(config, bundle, spec, req, sched, policy):
     tracer_box = []
 
     def instr_factory(kref):
-        recs = [Recorder(kref, t) for t in tags]
+        # R0 records everything; further stack members may implement only
+        # the start hooks ("S" tags) or only the end hooks ("E" tags)
+        recs = []
+        for t in tags:
+            cls = {"R": Recorder, "S": StartsOnlyRecorder,
+                   "E": EndsOnlyRecorder}[t[0]]
+            recs.append(cls(kref, t))
         if req.tracer:
             _tracers.datetime = _FakeDatetimeModule(kref, req.skew)
             tr = _tracers.ApolloTracer()
